@@ -16,6 +16,10 @@ class Perm(enum.IntFlag):
     A = 1
     B = 2
     C = 8
+    # named masks made of several bits, as the library's own permission classes have them: a value holding only some of those bits
+    # is not that mask
+    AB = 3
+    ALL = 11
 
 
 def _f32(x):
